@@ -1023,6 +1023,12 @@ def event_graph(fn, role_of, ret_local=0, max_states=40000, branch_role=None, st
                     for kl, kv in kb:
                         if kl == s.rv.place.local and isinstance(kv, tuple) and kv[0] == "variant":
                             kb = kb | {(ll, ("int", kv[1]))}
+                elif s.rv.k == "use" and s.rv.ops and s.rv.ops[0].place is not None and not s.rv.ops[0].place.is_local() and len(s.rv.ops[0].place.proj) == 2 \
+                        and isinstance(s.rv.ops[0].place.proj[0], dict) and s.rv.ops[0].place.proj[0].get("v") == 1 and isinstance(s.rv.ops[0].place.proj[1], dict) and s.rv.ops[0].place.proj[1].get("f") == 0:
+                    # `(cf as Break).0`: the residual of a value known to be a particular failure
+                    for kl, kv in kb:
+                        if kl == s.rv.ops[0].place.local and isinstance(kv, tuple) and kv[0] == "abs" and kv[1].startswith(("agg:Result::Err", "agg:Option::None")):
+                            kb = kb | {(ll, kv)}
                 elif s.rv.k == "use" and s.rv.ops and s.rv.ops[0].place is not None and s.rv.ops[0].place.is_local():
                     # moves keep the knowledge
                     for kl, kv in kb:
@@ -1030,7 +1036,7 @@ def event_graph(fn, role_of, ret_local=0, max_states=40000, branch_role=None, st
                             kb = kb | {(ll, kv)}
                 # the literal an unnamed temporary holds (so that `tmp = Err(X); _0 = move tmp` returns Err(X))
                 if s.rv.k == "agg" and s.rv.j.get("ak") == "adt" and fn.local_name(ll) is None and ll != ret_local and ll not in mut_borrowed(fn):
-                    av = abstract_value(fn, s, aliases, src, ev_blocks)
+                    av = _abs_with_known_payload(fn, s, abstract_value(fn, s, aliases, src, ev_blocks), kb)
                     if av.startswith("agg:"):
                         kb = kb | {(ll, ("abs", av))}
             if decided and s.lhs is not None and not (s.rv.k == "discr"):
@@ -1049,7 +1055,7 @@ def event_graph(fn, role_of, ret_local=0, max_states=40000, branch_role=None, st
                     if len(pr) == 2 and isinstance(pr[0], dict) and "v" in pr[0] and isinstance(pr[1], dict) and pr[1].get("f") == 0:
                         is_alias = True
                 if l == ret_local:
-                    retv = abstract_value(fn, s, aliases, src, ev_blocks)
+                    retv = _abs_with_known_payload(fn, s, abstract_value(fn, s, aliases, src, ev_blocks), kb)
                     if retv.startswith("var:") and src_local is not None:
                         for kl, kv in kb:
                             if kl == src_local and isinstance(kv, tuple) and kv[0] == "abs":
@@ -1077,11 +1083,32 @@ def event_graph(fn, role_of, ret_local=0, max_states=40000, branch_role=None, st
             decided = frozenset(x for x in decided if x[0][1] != t.dest.local)
         if kb and t.k == "call" and t.dest is not None:
             kb = frozenset(x for x in kb if x[0] != t.dest.local)
+        # `Try::branch(x)` of a value whose variant is known on this path: Continue for the success variant, Break otherwise
+        if t.k == "call" and t.dest is not None and t.dest.is_local() and t.j.get("callee_name") == "branch" and "Try" in (t.callee or "") and t.args and t.args[0].place is not None and t.args[0].place.is_local() and t.dest.local not in mut_borrowed(fn):
+            inst_b = (t.j.get("callee_inst") or "").lstrip("<")
+            fam_b = "R" if inst_b.startswith(("std::result::Result", "core::result::Result")) else ("O" if inst_b.startswith(("std::option::Option", "core::option::Option")) else None)
+            add_ = set()
+            for kl, kv in kb:
+                if kl == t.args[0].place.local and isinstance(kv, tuple):
+                    if kv[0] == "variant" and fam_b is not None:
+                        success = (fam_b == "R" and kv[1] == 0) or (fam_b == "O" and kv[1] == 1)
+                        add_.add((t.dest.local, ("variant", 0 if success else 1)))
+                    elif kv[0] == "abs":
+                        add_.add((t.dest.local, kv))
+            kb = kb | add_
         # the value `?` returns early with is the failure variant of the function's own result type
         if t.k == "call" and t.dest is not None and t.dest.is_local() and t.j.get("callee_name") == "from_residual":
             rv_ = residual_variant(t)
             if rv_ is not None and t.dest.local not in mut_borrowed(fn):
-                kb = kb | {(t.dest.local, ("variant", rv_[1])), (t.dest.local, ("abs", "agg:%s" % rv_[0]))}
+                desc_ = "agg:%s" % rv_[0]
+                # the error is handed on unchanged when both sides have the same error type (From is then the identity)
+                inst_r = t.j.get("callee_inst") or ""
+                tys_ = re.findall(r"Result<[^<>]*(?:<[^<>]*>[^<>]*)*, ([^<>]*(?:<[^<>]*>)?)>", inst_r)
+                if len(tys_) >= 2 and tys_[0].strip() == tys_[1].strip() and t.args and t.args[0].place is not None and t.args[0].place.is_local():
+                    for kl, kv in kb:
+                        if kl == t.args[0].place.local and isinstance(kv, tuple) and kv[0] == "abs" and kv[1].startswith("agg:Result::Err("):
+                            desc_ = kv[1]
+                kb = kb | {(t.dest.local, ("variant", rv_[1])), (t.dest.local, ("abs", desc_))}
         if bb in ev_blocks:
             node = ("ev", _nk(bb, decided), ev_blocks[bb])
             g.add(src, label, node)
@@ -1181,6 +1208,9 @@ def event_graph(fn, role_of, ret_local=0, max_states=40000, branch_role=None, st
                     rv_ = residual_variant(t) if t.j.get("callee_name") == "from_residual" else None
                     if rv_ is not None:
                         retv = "agg:%s" % rv_[0]          # `?` returns the failure variant: same as `return Err(..)`
+                        for kl, kv in kb:
+                            if kl == t.dest.local and isinstance(kv, tuple) and kv[0] == "abs" and kv[1].startswith(retv + "("):
+                                retv = kv[1]
             if t.target is not None:
                 work.append((t.target, (src, frozenset(aliases), label, retv, decided, kb)))
             continue
@@ -1227,6 +1257,19 @@ def _is_enum_like(o):
     """aggregate of an enum variant whose operands are not themselves aggregates of records (keeps labels short/stable)"""
     name = str(o.a)
     return not name.endswith("::" + name.split("::")[-2]) if name.count("::") >= 1 else False
+
+
+def _abs_with_known_payload(fn, s, av, kb):
+    """`Err(x)` / `Ok(x)` / `Some(x)` where x is a local known, on this path, to hold a literal enum variant (built in a
+    helper that was spliced in, handed over through its return local): the variant is part of the description, as it is
+    when the literal is written in place"""
+    if av in ("agg:Result::Err", "agg:Result::Ok", "agg:Option::Some") and s.rv is not None and len(s.rv.ops) == 1 and s.rv.ops[0].place is not None and s.rv.ops[0].place.is_local():
+        for kl, kv in kb:
+            if kl == s.rv.ops[0].place.local and isinstance(kv, tuple) and kv[0] == "abs" and kv[1].startswith("agg:") and "(" not in kv[1]:
+                parts = kv[1][4:].split("::")
+                if len(parts) == 2 and parts[0] != parts[1]:          # an enum variant, not a struct literal
+                    return "%s(%s)" % (av, kv[1][4:])
+    return av
 
 
 def abstract_value(fn, s, aliases, src, ev_blocks):
